@@ -12,11 +12,12 @@ child per case.
 import importlib
 import json
 import os
+import signal
 import subprocess
 import sys
 import traceback
 
-from vf.core import HarnessError, Violation
+from vf.core import HarnessError, Inconclusive, Violation
 
 _servers = {}
 
@@ -65,6 +66,14 @@ def run(pid, clause_name, case):
     raise HarnessError("isolated check failed:\n%s" % out[1])
 
 
+class CaseTimeout(Inconclusive):
+    pass
+
+
+def _case_alarm(signum, frame):
+    raise CaseTimeout("the case did not finish within VERIF_CASE_TIMEOUT")
+
+
 def serve(pid):
     mod = importlib.import_module("vf.props." + pid.lower())
     for name in getattr(mod, "IMPORTS", []):
@@ -84,6 +93,10 @@ def serve(pid):
             try:
                 os.close(r)
                 try:
+                    # a case that hangs must not hang the server
+                    signal.signal(signal.SIGALRM, _case_alarm)
+                    signal.alarm(int(os.environ.get("VERIF_CASE_TIMEOUT",
+                                                    "300")))
                     res = ["ok", clauses[req["clause"]].check(req["case"])]
                 except Violation as v:
                     res = ["violation", v.message, v.details]
